@@ -102,6 +102,10 @@ pub struct CCfg {
     /// the callers' deadlines are still given relative to the start of the run
     #[serde(default)]
     pub start_age_ms: i64,
+    /// abandoned calls are dropped while their thread is unwinding (the task that owns the call
+    /// panicked; tokio drops a panicking task's future from a guard inside its catch_unwind)
+    #[serde(default)]
+    pub abandon_by_unwind: bool,
 }
 
 #[derive(Clone, Debug, PartialEq, Eq, Hash)]
@@ -630,7 +634,27 @@ impl World {
                 if self.has(A_PARK) && !self.free.get() {
                     self.st.borrow_mut().park_armed = true;
                 }
-                let r = catch_unwind(AssertUnwindSafe(|| drop(fut)));
+                let r = if self.cfg.abandon_by_unwind {
+                    struct Unwind;
+                    struct DropInUnwind<F>(Option<F>);
+                    impl<F> Drop for DropInUnwind<F> {
+                        fn drop(&mut self) {
+                            drop(self.0.take());
+                        }
+                    }
+                    let r = catch_unwind(AssertUnwindSafe(|| {
+                        let _g = DropInUnwind(Some(fut));
+                        std::panic::panic_any(Unwind);
+                    }));
+                    let _ = take_panic();
+                    match r {
+                        Err(p) if p.downcast_ref::<Unwind>().is_some() => Ok(()),
+                        Err(p) => Err(p),
+                        Ok(()) => Ok(()),
+                    }
+                } else {
+                    catch_unwind(AssertUnwindSafe(|| drop(fut)))
+                };
                 self.st.borrow_mut().park_armed = false;
                 if r.is_err() {
                     self.on_panic(Task::Caller(i));
